@@ -63,7 +63,8 @@ def truth(node, env=None, depth=0):
             return truth(a, env, depth)
         if s.opcode == "<" and az and _unsigned(b):
             return truth(b, env, depth)
-        ta, tb = _text(a, env), _text(b, env)
+        env_ = env or _arith_env(s)
+        ta, tb = _text(a, env_), _text(b, env_)
         if s.opcode == ">":
             return ("atom", "%s>%s" % (ta, tb))
         if s.opcode == "<":
@@ -86,7 +87,101 @@ def truth(node, env=None, depth=0):
             return truth(stmts[0].children[0], env2, depth + 1)
     if s.kind == "IntegerLiteral":
         return ("true",) if s.intval() else ("false",)
-    return ("atom", _text(s, env))
+    if s.kind == "DeclRefExpr" and depth < 3 and not env:
+        # a named condition: a local defined exactly once by a boolean expression (`const int in_file = a > b && c > d;`) stands for it
+        d = _single_boolean_def(s)
+        if d is not None:
+            return truth(d, env, depth + 1)
+    return ("atom", _text(s, env or _arith_env(s)))
+
+
+def atom_text(node):
+    """the text `truth` uses for an operand / an atom made of `node` (temporaries spelled out)"""
+    return _text(node, _arith_env(node))
+
+
+def comparison_nodes(cond, depth=0):
+    """the comparison nodes of a condition, looking through named conditions (see truth)"""
+    for c in cond.walk():
+        if c.kind == "BinaryOperator" and c.opcode in ("<", ">", "<=", ">=", "==", "!="):
+            yield c
+        elif c.kind == "DeclRefExpr" and depth < 3:
+            d = _single_boolean_def(c)
+            if d is not None:
+                for x in comparison_nodes(d, depth + 1):
+                    yield x
+
+
+_ARITH_ENV = {}
+
+
+def _arith_env(node):
+    """{local: "(text of its definition)"} for the locals of the enclosing function that are defined exactly once by a call-free
+    arithmetic expression (a temporary such as `prev_block_end = prev_sample + (this_index - prev_index)`): atoms are spelled with
+    the definition, so that a condition written with the temporary and one written without it have the same atoms"""
+    fn = node
+    while fn is not None and fn.kind != "FunctionDecl":
+        fn = fn.parent
+    if fn is None:
+        return {}
+    key = id(fn)
+    if key in _ARITH_ENV:
+        return _ARITH_ENV[key]
+    params = {p.name for p in fn.children if p.kind == "ParmVarDecl"}
+    cands = {}
+    for d in fn.find("VarDecl"):
+        if d.name and d.children and d.children[-1].kind != "InitListExpr":
+            cands.setdefault(d.name, []).append(d.children[-1])
+    for x in fn.walk():
+        if x.kind == "BinaryOperator" and x.opcode in ("=", "+=", "-=", "*=", "/=", "%=", "|=", "&=") and x.children:
+            t = x.children[0].strip(casts=True)
+            if t.kind == "DeclRefExpr" and t.path():
+                cands.setdefault(t.path(), []).append(x.children[1] if x.opcode == "=" else None)
+        elif x.kind == "UnaryOperator" and x.opcode in ("++", "--", "&") and x.children:
+            t = x.children[0].strip(casts=True)
+            if t.kind == "DeclRefExpr" and t.path():
+                cands.setdefault(t.path(), []).append(None)
+    env = {}
+    for name, ds in cands.items():
+        if name in params or len(ds) != 1 or ds[0] is None:
+            continue
+        e = ds[0].strip(casts=True)
+        if e.kind not in ("BinaryOperator", "ParenExpr") or any(y.kind in ("CallExpr", "ConditionalOperator") for y in e.walk()):
+            continue
+        if e.kind == "BinaryOperator" and e.opcode not in ("+", "-", "*"):
+            continue
+        if any(y.kind == "DeclRefExpr" and y.path() == name for y in e.walk()):
+            continue
+        env[name] = "(" + re.sub(r"\s", "", e.nsrc) + ")"
+    _ARITH_ENV[key] = env
+    return env
+
+
+def _single_boolean_def(ref):
+    name = ref.path()
+    fn = ref
+    while fn is not None and fn.kind != "FunctionDecl":
+        fn = fn.parent
+    if fn is None or not name:
+        return None
+    if any(p.kind == "ParmVarDecl" and p.name == name for p in fn.children):
+        return None
+    defs = [d.children[-1] for d in fn.find("VarDecl") if d.name == name and d.children and d.children[-1].kind != "InitListExpr"]
+    for x in fn.walk():
+        if x.kind == "BinaryOperator" and x.opcode in ("=", "+=", "-=", "|=", "&=") and x.children and x.children[0].strip(casts=True).kind == "DeclRefExpr" \
+                and x.children[0].strip(casts=True).path() == name:
+            defs.append(x.children[1] if x.opcode == "=" else None)
+        elif x.kind == "UnaryOperator" and x.opcode in ("++", "--", "&") and x.children and x.children[0].strip(casts=True).kind == "DeclRefExpr" \
+                and x.children[0].strip(casts=True).path() == name:
+            defs.append(None)
+    if len(defs) != 1 or defs[0] is None:
+        return None
+    t = defs[0].strip(casts=True)
+    while t.kind == "ParenExpr" and t.children:
+        t = t.children[0].strip(casts=True)
+    if (t.kind == "BinaryOperator" and t.opcode in ("&&", "||", "==", "!=", "<", ">", "<=", ">=")) or (t.kind == "UnaryOperator" and t.opcode == "!"):
+        return defs[0]
+    return None
 
 
 def conj(fs):
